@@ -190,6 +190,8 @@ pub struct Sig {
     pub ret: LT,
     /// (extra inputs, has extra outputs): only plain functions (no places, no effects) may be called from translated code
     pub plain: bool,
+    /// like `plain`, except that the function takes a bound on the iterations of its `loop` as first argument
+    pub fuel_plain: bool,
     /// a method whose only extra input is its receiver (`self` by value or by shared reference): callable as `recv.name(args)`
     pub self_only: bool,
     /// for a method of a small struct passed by value (ExcHandler): the `self.<field>` places it reads, in input order
@@ -263,6 +265,19 @@ impl<'a> Cx<'a> {
                     "Result" if args.len() == 2 => LT::Res(Box::new(self.conv(&args[0])), Box::new(self.conv(&args[1]))),
                     "Vec" if args.len() == 1 => LT::List(Box::new(self.conv(&args[0]))),
                     n if TRANSPARENT.contains(&n) && args.len() == 1 => self.conv(&args[0]),
+                    // a string object as the intern table sees it: its cached hash and its text (the class link is a reference to
+                    // another object and identity is not a field; both are outside what the translated table functions read)
+                    "ObjString" => {
+                        if let Some(v) = self.db.structs.get("ObjString") {
+                            if v.len() == 1 {
+                                let have: Vec<String> = v[0].fields.iter().map(|(f, _)| f.clone()).collect();
+                                if have.contains(&"hash".to_string()) && have.contains(&"string".to_string()) {
+                                    return LT::Rec("ObjString".to_string(), vec![("hash".to_string(), LT::BV(64)), ("string".to_string(), LT::Str)]);
+                                }
+                            }
+                        }
+                        LT::Opaque
+                    }
                     n => {
                         if RECORDS.contains(&n) {
                             if let Some(v) = self.db.structs.get(n) {
@@ -513,6 +528,20 @@ impl<'a> Cx<'a> {
             }
             _ => None,
         }
+    }
+
+    /// The body of `owner::method`, tokens without blanks, as the sources have it now.
+    fn method_body_of(&self, owner: &str, method: &str) -> Option<String> {
+        for im in &self.db.impls {
+            if im.self_ty.head() == Some(owner) {
+                for f in &im.fns {
+                    if f.sig.ident == method {
+                        return Some(compact(&toks(&f.block)));
+                    }
+                }
+            }
+        }
+        None
     }
 
     fn accessor_body_is(&self, method: &str, body: &str) -> bool {
